@@ -382,10 +382,11 @@ class Translator:
             elif p in info.defaults: argnodes.append(info.defaults[p])
             else: self.refuse(node, 'missing argument %s' % p)
         selfargs = ['self_' + a for a in info.self_attrs]
-        fuel = ['fuel'] if (info.recursive and info is self.cur) else (['(fuel_of_args)'] if info.recursive else [])
-        if info.recursive and info is not self.cur:
-            self.refuse(node, 'call of a recursive function from another function (use a wrapper)')
-        return self.bindall(argnodes, lambda a: '%s %s' % (info.coqname, ' '.join(fuel + selfargs + a)))
+        if info.recursive and info is self.cur:
+            return self.bindall(argnodes, lambda a: '%s %s' % (info.coqname, ' '.join(['fuel'] + selfargs + a)))
+        if info.recursive:      # fuel from the first (decreasing, integer) argument
+            return self.bindall(argnodes, lambda a: '%s %s' % (info.coqname, ' '.join(['(fuel_of %s)' % a[0]] + selfargs + a)))
+        return self.bindall(argnodes, lambda a: '%s %s' % (info.coqname, ' '.join(selfargs + a)))
 
     def call(self, node):
         f = node.func
